@@ -41,8 +41,10 @@ Fixpoint monotone_pairs (vc : list (Q * Z)) : bool :=
                    && monotone_pairs r
   end.
 
+(* a resolution below 1 bit or above the 16 bits of the result type must be rejected: no uint16 array can hold the
+   codes 0 .. 2^res - 1 monotonically *)
 Definition spec_volt (amp off : Q) (res : Z) (vs : list Q) (obs : outcome (list Z)) : bool :=
-  if res <? 1 then match obs with OErr => true | _ => false end
+  if (res <? 1) || (16 <? res) then match obs with OErr => true | _ => false end
   else if existsb (fun v => negb (Qle_bool (off - amp) v && Qle_bool v (off + amp))) vs then
     match obs with OErr => true | _ => false end                       (* out of range must be rejected *)
   else match obs with
